@@ -472,3 +472,49 @@ def run_flagpath(prog, ctx=None):
     if n < 1:
         raise Broken("FLAGPATH: no getter special case found")
     return res
+
+
+def run_terminated(prog, ctx=None):
+    """TERMINATED: a function that gets room for n + 1 bytes (malloc/realloc(.., n + 1)) into P and copies n bytes into P
+    stores the terminator P[n] = 0 on every path that performs the copy: the store dominates the copy or every path from the
+    copy to the function's end passes it"""
+    res = Result("TERMINATED")
+    files = set(ctx.get("files", [])) if ctx else None
+    from .rules_path import funcs_of
+    for f in funcs_of(prog, files):
+        allocs = {}      # var id -> text of n
+        for b, i, n in f.walk_all():
+            if n.get("k") == "bin" and n.get("op") == "=":
+                l = strip(n["a"], lvalue_to_rvalue=False)
+                r = strip(n["b"], all_casts=True)
+                if l.get("k") == "ref" and "id" in l["d"] and r.get("k") == "call" and callee_name(r) in ("malloc", "realloc") and r.get("args"):
+                    sz = strip(r["args"][-1], all_casts=True)
+                    if sz.get("k") == "bin" and sz.get("op") == "+" and cval(sz["b"]) == 1:
+                        allocs[l["d"]["id"]] = norm(show(strip(sz["a"], all_casts=True), f))
+        if not allocs:
+            continue
+        copies = []
+        stores = []
+        for b, i, e in f.elements():
+            if e.get("k") == "call" and callee_name(e) in ("memcpy", "memmove", "strncpy") and len(e.get("args", [])) == 3:
+                d = strip(e["args"][0], all_casts=True)
+                if d.get("k") == "ref" and d["d"].get("id") in allocs and norm(show(strip(e["args"][2], all_casts=True), f)) == allocs[d["d"]["id"]]:
+                    copies.append((b, e, d["d"]["id"]))
+            for n in walk_own(e):
+                if n.get("k") == "bin" and n.get("op") == "=" and cval(n["b"]) == 0:
+                    l = strip(n["a"], lvalue_to_rvalue=False)
+                    if l.get("k") == "idx":
+                        a = strip(l["a"], all_casts=True)
+                        if a.get("k") == "ref" and a["d"].get("id") in allocs and norm(show(strip(l["i"], all_casts=True), f)) == allocs[a["d"]["id"]]:
+                            stores.append((b, a["d"]["id"]))
+        dom = f.dominators()
+        for b, e, vid in copies:
+            tblocks = {sb.id for sb, v in stores if v == vid}
+            ok = any(t in dom[b.id] for t in tblocks) or b.id in tblocks
+            if not ok:
+                # every path from the copy to the exit passes a store
+                reach = f.reachable_from(b.id, avoid=tblocks)
+                ok = f.exit not in reach
+            res.ob("%s:%s" % (f.qn, norm(show(e, f))[:60]), ok, f, e.get("l", f.line),
+                   "" if ok else "%s bytes are copied into the block sized %s + 1, but a path through this copy stores no terminator at [%s]" % (allocs[vid], allocs[vid], allocs[vid]))
+    return res
